@@ -17,6 +17,8 @@ static mut ASOF_CLOCK_ID: libc::clockid_t = -1;
 static mut ASOF_TICK: i64 = -1;
 static mut QUERY_TICK: i64 = -1;
 static mut PHC_TICK: i64 = -1;
+static mut GRACE_TICK: i64 = -1;
+static mut GRACE_CALLS: u32 = 0;
 static mut CLOCK_FAILS: bool = false;
 
 fn next_tick() -> i64 {
@@ -169,6 +171,7 @@ fn empty_context() -> Context {
 #[kani::stub(crate::channels::DispatchBox::send, stub_send)]
 #[kani::stub(std::sync::mpsc::Receiver::recv_timeout, stub_recv_timeout)]
 #[kani::stub(get_phc_error_bound_from_path, stub_phc_read)]
+#[kani::stub(std::time::Instant::now, ghost_instant_now)]
 fn c13_poller_iteration() {
     let has_reply: bool = kani::any();
     let t = any_tracking();
@@ -203,7 +206,18 @@ fn c13_poller_iteration() {
             kani::assert(ASOF_TICK < QUERY_TICK, "C12.poller.as_of_read_before_querying_chronyd");
         }
         let phc_applies = phc_configured && has_reply && phc_refid == t_refid;
+        // the age of the last good answer is judged when the outcome is known, not before the
+        // (blocking, up to 3 s) query: "FreeRunning-class only while the last good answer is < 5 s old"
+        if unsafe { GRACE_CALLS } > 0 {
+            unsafe {
+                kani::assert(GRACE_TICK > QUERY_TICK, "C13.select.grace_judged_after_the_query_returned");
+                if PHC_READS > 0 {
+                    kani::assert(GRACE_TICK > PHC_TICK, "C13.select.grace_judged_after_the_phc_read_failed");
+                }
+            }
+        }
         if !has_reply {
+            kani::assert(unsafe { GRACE_CALLS } == 1, "C13.select.grace_consulted_once_on_silence");
             kani::assert(kind == if grace { 2 } else { 3 }, "C13.select.silence_is_grace_then_unknown_class");
             kani::assert(unsafe { PHC_READS } == 0, "C13.select.no_phc_read_without_a_report");
         } else if phc_applies {
